@@ -1,7 +1,7 @@
 (* SnapRead/Props.v — theorems for C05 (snapshot reads are stable and identical across all access paths). *)
 From Verif Require Import Base.Lex SnapRead.Model SnapRead.ModelRead SnapRead.ProofsOrd SnapRead.ProofsList
   SnapRead.ProofsScanF SnapRead.ProofsScanR SnapRead.ProofsScanLoop SnapRead.ProofsScanLoopR
-  SnapRead.ProofsCache SnapRead.ProofsRead SnapRead.ProofsTerm SnapRead.ProofsMove SnapRead.ProofsReadThrough SnapRead.ProofsTop.
+  SnapRead.ProofsCache SnapRead.ProofsRead SnapRead.ProofsTerm SnapRead.ProofsMove SnapRead.ProofsReadThrough SnapRead.ProofsMoveTerm SnapRead.ProofsTop.
 
 (* For every truth (ascending keys), every snapshot ts, all bounds (empty = unbounded; even lo > hi),
    every batch size (0 and 1 are replaced by the default, sizes above 2^32-1 are capped, as in newScanner), key-only or not, EVERY
@@ -160,13 +160,17 @@ Print Assumptions C05_cache_transparent.
    owner of a transaction finishes it): every answer is read_at, at the version current at that
    moment, on the final truth.  SetSnapshotTS clears the cache and the ignored set on every call;
    environment assumption at a move (p_env): transactions still alive and pushable can only commit
-   above the new timestamp. *)
+   above the new timestamp.  Second half (so that the statement is not vacuous for small fuel): with
+   fuel >= patience + 2 (patience = the waiting rounds the live transactions impose) EVERY Get of the
+   program returns an answer. *)
 Theorem C05_ts_moves :
   forall (w : world) (ts : N) (fuel : nat) (ops : list pop),
     txs_ok (w_txns w) ts ->
     let Fin := fun k => final_ws (w_txns w) (k_get (w_keys w) k) in
     let st := (w, mkRS ts None []) in
-    p_env fuel st ops -> p_right Fin fuel st ops.
+    p_env fuel st ops ->
+    p_right Fin fuel st ops /\
+    ((patience (w_txns w) + 2 <= fuel)%nat -> p_answered fuel st ops).
 Proof. exact C05_ts_moves_proof. Qed.
 Print Assumptions C05_ts_moves.
 
@@ -176,29 +180,21 @@ Print Assumptions C05_ts_moves.
    are statements about one timestamp and SetSnapshotTS drops both.  Every answer of every program of
    Get / SetSnapshotTS (forward and BACKWARD) / finish events is read_at at the current version.
    (Found here: the code kept the committed set across SetSnapshotTS; after a backward move below the
-   commit ts the value of the not yet committed-at-that-ts transaction was read — ex_backward_move.) *)
+   commit ts the value of the not yet committed-at-that-ts transaction was read — ex_backward_move.)
+   Second half: with fuel >= patience + 2 every Get returns an answer, whether the resolutions land or not. *)
 Theorem C05_ts_moves_read_through :
   forall (w : world) (ts : N) (fuel : nat) (lands : nat -> bool) (ops : list pop),
     txs_ok (w_txns w) ts -> lock_fresh w ->
     let Fin := fun k => final_ws (w_txns w) (k_get (w_keys w) k) in
     let st := (ts, mkRst w [] []) in
-    q_envs fuel lands st ops -> q_right Fin fuel lands st ops.
+    q_envs fuel lands st ops ->
+    q_right Fin fuel lands st ops /\
+    ((patience (w_txns w) + 2 <= fuel)%nat -> q_answered fuel lands st ops).
 Proof. exact C05_ts_moves_read_through_proof. Qed.
 Print Assumptions C05_ts_moves_read_through.
 
 (* ---------------------------------------------------------------- non-vacuity *)
-(* a world with every kind of leftover lock; ts = 50 *)
-Definition ex_world : world :=
-  mkWorld
-    [ ([97], mkKs [(10, Put [1])] (Some (mkLock 20 (LPut [2]))));      (* a: secondary of txn 20, committed at 30 *)
-      ([98], mkKs [(10, Put [3])] (Some (mkLock 40 LDel)));            (* b: txn 40 rolled back *)
-      ([99], mkKs [] (Some (mkLock 45 (LPut [4]))));                    (* c: txn 45 alive, finishes committed at 60 *)
-      ([100], mkKs [(12, Put [5])] (Some (mkLock 47 LPess)));           (* d: pessimistic *)
-      ([101], mkKs [(12, Put [6])] (Some (mkLock 70 (LPut [7]))));      (* e: later transaction *)
-      ([102], mkKs [(12, Put [8])] (Some (mkLock 48 (LPut [9])))) ]     (* f: txn 48 pushable *)
-    [ (20, TFinished (FCommitted 30)); (40, TFinished FRolledBack); (45, TAlive 2 (FCommitted 60));
-      (47, TAlive 0 FRolledBack); (70, TAlive 5 (FCommitted 90)); (48, TPushed (FCommitted 80)) ].
-
+(* ex_world (ProofsTop.v): a world with every kind of leftover lock; ts = 50 *)
 Example ex_world_ok : txs_ok (w_txns ex_world) 50.
 Proof.
   intros t st. cbn [ex_world w_txns tx_get].
